@@ -85,7 +85,7 @@ var setOpKinds = []string{"AddValue", "AddValue", "AddValue", "AddValues", "Remo
 
 func genSetCase(s core.Source) setCase {
 	var c setCase
-	c.Elem = core.Pick(s, []string{"int", "int", "string", "float", "ints", "any", "any-hard", "set"}, "elem")
+	c.Elem = core.Pick(s, []string{"int", "int", "string", "float", "ints", "any", "any-hard", "set", "record"}, "elem")
 	c.Collator = core.Pick(s, []string{"default", "default", "reversed", "coarse"}, "collator")
 	if (c.Elem == "any" || c.Elem == "any-hard" || c.Elem == "set") && c.Collator == "coarse" {
 		c.Collator = "reversed"
@@ -242,6 +242,12 @@ var (
 			}
 			return 0
 		}}
+	// records: Go maps with the same three keys whose values pull in opposite directions (x goes up with the code, y
+	// goes down), so that the first key in sorted order decides and any other order of looking at the keys gives
+	// another answer
+	seRecord = setElem[map[string]int]{"record", 64, func(c int) map[string]int { return map[string]int{"x": c, "y": 100 - c, "z": c % 5} }, func(c int) int { return c },
+		func(a, b map[string]int) bool { return a["x"] == b["x"] && a["y"] == b["y"] && a["z"] == b["z"] && len(a) == len(b) },
+		func(a, b map[string]int) bool { return a["x"] < b["x"] }, func(v map[string]int) int { return v["x"] / 7 }}
 	seInts = setElem[[]int]{"ints", 64, intsOfCode, func(c int) int { return c }, sameInts, lessInts, func(v []int) int { return len(v) }}
 	seAny  = setElem[any]{"any", len(anyPool), func(c int) any { return anyPool[c%len(anyPool)] }, func(c int) int { return anyPoolClass[c%len(anyPool)] },
 		func(a, b any) bool { return a == b }, nil, nil}
@@ -297,6 +303,8 @@ func execSetCase(c setCase, _ core.Source) core.Result {
 		return execSet(c, seAny)
 	case "any-hard":
 		return execSet(c, seAnyHard)
+	case "record":
+		return execSet(c, seRecord)
 	default:
 		return execSet(c, seSet)
 	}
